@@ -8,6 +8,8 @@
 #![deny(rust_2018_idioms, missing_docs, missing_debug_implementations)]
 #![deny(clippy::pedantic, clippy::cargo, clippy::nursery, clippy::unwrap_used)]
 #![allow(clippy::multiple_crate_versions)]
+// `penguin_rs_verif` guards verification-only hooks (off by default, set with `--cfg`)
+#![allow(unexpected_cfgs)]
 #![no_std]
 
 extern crate alloc;
@@ -26,6 +28,8 @@ mod stream_tools;
 mod task;
 #[cfg(test)]
 mod tests;
+#[cfg(all(test, loom, penguin_rs_verif))]
+mod verif_loom;
 pub mod timing;
 pub mod ws;
 
